@@ -75,3 +75,21 @@ Theorem C08_read_specs_without_height : forall t k, EngineReadBridge.NH.wf_tree_
   Cursor.get t k = option_map Cursor.to_item (find (fun e => beq (lent_key e) k) (flatten t)).
 Proof. exact EngineReadBridge.NH.get_spec_nh. Qed.
 Print Assumptions C08_read_specs_without_height.
+
+(* ---- and INSIDE a write transaction (model/EngineScan.v: the overlay of materialised nodes over mapped pages as the tree
+   the cursor walks, leaves emptied by the transaction included): after any operations, at any nested bucket path, the
+   cursor machine's get / scan / every range / seek = the reference's answers ---- *)
+From Jamm Require Engine EngineAbs EnginePathFacts EngineScan EngineTxScan.
+Theorem C08_inside_write_tx : forall st ops path o x es, EnginePathFacts.db_pages_wf st ->
+  Forall (EnginePathFacts.op_ok (Engine.d_disk st)) ops ->
+  Spec.get_at path (EngineAbs.sem_tx ops (EngineAbs.abs_db st)) = Some (Spec.SBucket o x es) ->
+  let b := Spec.SBucket o x es in
+  (forall k, EngineScan.tx_cget st ops path k = Engine.Ok (EngineReadBridge.ref_get b k)) /\
+  EngineScan.tx_scan st ops path = Engine.Ok (CVal (Spec.items_of b)) /\
+  (forall lo hi, EngineScan.tx_range st ops path lo hi =
+     Engine.Ok (CVal (filter (fun i => Spec.in_bounds lo hi (Spec.item_key i)) (Spec.items_of b)))) /\
+  (forall k, exists l, EngineScan.tx_seek st ops path k = Engine.Ok (EngineReadBridge.ref_found b k, CVal l) /\
+     if EngineReadBridge.ref_found b k then l = Spec.from_succ k (Spec.items_of b)
+     else l = Spec.from_pred k (Spec.items_of b) \/ l = Spec.from_succ k (Spec.items_of b)).
+Proof. exact EngineTxScan.tx_reads_cursor. Qed.
+Print Assumptions C08_inside_write_tx.
